@@ -11,13 +11,14 @@ KEEP0 = ['_buffer', 'g_dispatched', 'IDLE', 'CONNECTING', 'CONNECTED', 'protocol
         '_pingReq', 'queuePublishTx', 'windowPublish', 'windowPubRelease', 'windowPubRx', 'windowSubscribe',
         'windowUnsubscribe', '_window', '_initialT', '_bandwith', '_factor', '_version', '_cleanStart',
         'onPublish', 'onDisconnection', 'onMqttConnectionMade']
-KEEP = KEEP0 + ['g_firing']
+KEEP = KEEP0 + ['g_firing', 'id']
+KEEP_API = KEEP0 + ['g_firing']        # API calls may draw a packet identifier
 
 
 # what releasing held-back publishes never touches in addition: Deferred outcomes, existing timers, request fields
 KEEP_REFILL0 = KEEP0 + ['d_fired', 'd_ok', 'd_val', 'd_owner', 'deferred', 'msgId', 'qos', 'topic', 'retain',
                         'payload', 't_status', 't_fn', 't_arg', 't_owner', 't_delay', 'q_pos', 'initial', 'factor',
-                        'bandwith', 'maxDelay']
+                        'bandwith', 'maxDelay', 'id']
 KEEP_REFILL = KEEP_REFILL0 + ['g_firing', 'retries']
 
 
